@@ -20,6 +20,8 @@ func init() {
 			"NOT decided: equality of Result with the payload for every chunk partition (cursor arithmetic beyond bounds), the message-boundary regular expressions of the reader, read segmentation.",
 		Assumptions: []string{"no integer overflow in cursor arithmetic (sizes are bounded by the length of the data by the guards themselves)", "bytes.Trim*/TrimSpace/TrimPrefix return sub-slices of their argument"},
 		Mutants: []Mutant{
+			{ID: "C02-eom-window", Desc: "reader looks for the end-of-message marker in the last 1000 bytes only", Rule: "C02/eom-whole-buffer",
+				Edits: []Edit{{File: "driver/netconf/read.go", Old: "\t\tif d.Channel.PromptPattern.Match(b) { //nolint: nestif", New: "\t\ttail := b\n\t\tif len(tail) > d.Channel.PromptSearchDepth {\n\t\t\ttail = tail[len(tail)-d.Channel.PromptSearchDepth:]\n\t\t}\n\n\t\tif d.Channel.PromptPattern.Match(tail) { //nolint: nestif"}}},
 			{ID: "C02-no-header-bound", Desc: "bound check after the chunk marker removed", Rule: "C02/bounds",
 				Edits: []Edit{{File: "response/netconf.go", Old: "\t\tif cursor >= len(d) {\n\t\t\treturn errNetconf1Dot1ParseError(\n\t\t\t\t\"unable to parse netconf response: data ends inside a chunk header\",\n\t\t\t)\n\t\t}\n\n", New: ""}}},
 			{ID: "C02-cap-instead-of-len", Desc: "chunk size compared with the capacity", Rule: "C02/bounds",
@@ -52,8 +54,10 @@ func runC02(c *Ctx, r *Report) {
 	r.Rule("C02/failed-on-parse-error", "every error of the chunk parser stores a non-nil OperationError in Failed", 1)
 	r.Rule("C02/terminator-required", "the chunk parser's success return is reachable only through the end-of-chunks detection", 1)
 	r.Rule("C02/classify-decoded", "on the 1.1 path the failure scan is also applied to the de-chunked payload", 1)
+	r.Rule("C02/eom-whole-buffer", "the NETCONF reader applies the anchored end-of-message pattern to the whole accumulated buffer, never to a window of it", 1)
 	r.Rule("C02/provenance", "every value stored to Result derives from RawResult through slicing, append, bytes.Trim* and conversion only", 2)
 
+	checkEOMWholeBuffer(c, r)
 	rec := c.LookupFunc("response", "NetconfResponse", "Record")
 	if rec == nil {
 		r.Anchor("C02/bounds", "(*response.NetconfResponse).Record")
